@@ -191,7 +191,8 @@ class ZConfigParser:
     def replace(self, text):
         try:
             return substitute(text, self.defines)
-        except ZConfig.SubstitutionReplacementError as e:
+        except (ZConfig.SubstitutionReplacementError,
+                ZConfig.SubstitutionSyntaxError) as e:
             e.lineno = self.lineno
             e.url = self.url
             raise
